@@ -245,13 +245,3 @@ def programs(trees, per=16, prefix="expr"):
         chunk = trees[i:i + per]
         out.append(("%s%03d" % (prefix, i // per), program(chunk), chunk))
     return out
-
-def table_defect(t):
-    """a left operand from a lower Java level of the group the printer's table ranks equal: Java ranks
-    & (7) > ^ (6) > | (5), the table gives all three 7.  `~e` is emitted as `e ^ -1`, an XOr node with `e`
-    as its left operand."""
-    rank = {"and": 7, "xor": 6, "not": 6, "or": 5}
-    k = t[0]
-    if k in ("var", "lit"): return False
-    if k in rank and t[1][0] in rank and rank[t[1][0]] < rank[k]: return True
-    return any(table_defect(x) for x in t[1:] if isinstance(x, tuple))
